@@ -281,8 +281,8 @@ func run(c *mon.Case) {
 
 func main() {
 	mon.Main(mon.Spec{
-		Prop: "C18",
-		Rule: "case = history of 30 register stores (directly and through State.Apply), register reads and memory-store applications over 3 register keys and 2 memory spaces; widths boundary-biased 1..255, values of all node kinds, a quarter of the register stores re-writing an earlier value or a value a Load returned (same object or copy) with the old, a narrower or a wider write width; memory store addresses closed (constants and constant expressions, widths 4..16) or depending on registers/memory; non-trivial = read whose width differs from the last write width, distinct by (value, write width, read width)",
+		Prop:        "C18",
+		Rule:        "case = history of 30 register stores (directly and through State.Apply), register reads and memory-store applications over 3 register keys and 2 memory spaces; widths boundary-biased 1..255, values of all node kinds, a quarter of the register stores re-writing an earlier value or a value a Load returned (same object or copy) with the old, a narrower or a wider write width; memory store addresses closed (constants and constant expressions, widths 4..16) or depending on registers/memory; non-trivial = read whose width differs from the last write width, distinct by (value, write width, read width)",
 		Explanation: "oracle: Load(k,w) must evaluate (refir, 6 valuations) to adjust(adjust(last value, write width), w) and have width w; unwritten keys read (nil,false); Apply(MemStore) with a closed address must return true and the value must read back at address mod 2^64; with an address that takes different values on different valuations it must return false and leave a full snapshot of registers and memory blocks unchanged; addresses containing loads but constant in value are not judged",
 		Assumptions: []string{"refir evaluator", "stores touching address 2^64-1 are excluded (recorded C03 finding)"},
 		Cases: func(t string) int {
